@@ -275,7 +275,10 @@ def make_hooks(env, name):
             if m:
                 return m
         env._rng = ChoiceRng([])
-        o = env.functional_observation(st)
+        try:
+            o = env.functional_observation(st)
+        except Exception as e:  # noqa: BLE001
+            return f'functional_observation of a reachable state raised {type(e).__name__}: {e}'
         for (rn, rep), gs in zip(oreps, ogym):
             m = check_rep(rep, gs, o, f'observation {rn}')
             if m:
@@ -297,7 +300,10 @@ def replay(case):
     if case['kind'] == 'space_owner':
         return judge_space_object_is_callers(case['skind'], tuple(case['shape']), tuple(case['types']), tuple(case['colours']), case['rep'])[1]
     if case['kind'] == 'gym_switch':
-        return judge_gym_switching(case['config'], case['seed'])[1]
+        try:
+            return judge_gym_switching(case['config'], case['seed'])[1]
+        except Exception as e:  # noqa: BLE001
+            return f'raised {type(e).__name__}: {e}'
     if case['kind'] == 'space':
         return judge_space(case['skind'], tuple(case['shape']), tuple(case['types']), tuple(case['colours']), case['rep'])[1]
     if case['kind'] == 'reach':
@@ -345,7 +351,7 @@ def run(rep, tier, seed):
     jobs = [sorted(sp[i::256], key=lambda x: len(x[2])) for i in range(256)]
     n = ns = 0
     fails = []
-    for k, s, fl in pmap(_work, jobs, fresh=True):
+    for k, s, fl in dyn.pmap_w('work', _work, jobs):
         n += k
         ns += s
         fails.extend(fl)
@@ -369,7 +375,10 @@ def run(rep, tier, seed):
     rep.part('returned_space_objects', conversions=on)
     gn = 0
     for name in (configs.SMALL + ['keydoor.7x7', 'memory_four_rooms.7x7'] if tier == 'quick' else [c for c, _ in configs.all_configs()]):
-        k, m = judge_gym_switching(name, seed + 3)
+        try:
+            k, m = judge_gym_switching(name, seed + 3)
+        except Exception as e:  # noqa: BLE001 -- the harness only builds, resets, steps and switches: an exception is the library's
+            k, m = 1, f'{name}: building / resetting / stepping / switching representations at the gym layer raised {type(e).__name__}: {e}'
         gn += k
         if m:
             rep.violation({'kind': 'gym_switch', 'config': name, 'seed': seed + 3, 'sig': {'part': 'gym_switching'}}, m)
@@ -395,3 +404,6 @@ def run(rep, tier, seed):
         'distinct_nontrivial counts distinct (space, representation) pairs; reachable states of shipped configurations '
         'are converted under all 3 state and 3 observation representations',
     )
+
+
+WORKERS = {'work': _work}
